@@ -650,7 +650,8 @@ static void judge_raw(acc_t *a, const char *m, size_t mlen, long *cls) {
 		int c = ref_b32_class((unsigned char)m[i]);
 		if (c == -3) has_lower = 1; else if (c == -4) has_foreign = 1;
 	}
-	if (ref_b32_decode(m, n, RB_SKIP_FOREIGN, b1, sizeof b1, &n1, NULL, NULL, NULL) != 0) vf_harness_error("raw reference decode failed");
+	int left1 = 0;
+	if (ref_b32_decode(m, n, RB_SKIP_FOREIGN, b1, sizeof b1, &n1, NULL, &left1, NULL) != 0) vf_harness_error("raw reference decode failed");
 	if (has_lower) ok2 = ref_b32_decode(m, n, RB_SKIP_FOREIGN | RB_FOLD, b2, sizeof b2, &n2, NULL, NULL, NULL) == 0;
 	copy = (char *)malloc(mlen + 1);
 	memcpy(copy, m, mlen);
@@ -658,7 +659,9 @@ static void judge_raw(acc_t *a, const char *m, size_t mlen, long *cls) {
 	res = KSI_base32Decode(copy, &out, &bl);
 	vf_count("impl_calls", 1);
 	if (res != KSI_OK) {
-		if (!has_foreign && !has_lower) {
+		/* a symbol sequence that leaves a whole unused symbol (5..7 surplus bits) is not the encoding of any byte
+		 * string: it may be refused (a canonical encoding leaves at most 4 unused bits) */
+		if (!has_foreign && !has_lower && left1 < 5) {
 			cls[3]++;
 			acc_fail(a, "b32dec-valid-rejected", "KSI_base32Decode of the bytes %s failed 0x%x; reference: %s", vf_hex(m, n), res, vf_hex(b1, n1));
 		} else cls[0]++;
